@@ -147,6 +147,9 @@ func RandomLeaf(r *rand.Rand, unsync bool) *core.Entry {
 	case 8:
 		return Problematic("p")
 	default:
+		if r.Intn(2) == 0 {
+			return Problematic("q")
+		}
 		return Untracked()
 	}
 }
